@@ -174,6 +174,27 @@ def run(chk):
     rule = "C15-FIXED"
     chk.rule(rule, "fixed-arity specials: inline opcode occurs in the generic body, inline arity guard inside the generic arity range, body size matches")
 
+    def count_eval(e, n):
+        """evaluate a guard expression with janet_v_count(args) := n"""
+        while e is not None and e.k in ("paren", "cast") and e.kids and "janet_v_count" not in [m.rstrip("@") for m in e.macro_names()]:
+            e = e.kids[0]
+        if e is None:
+            return None
+        if "janet_v_count" in [m.rstrip("@") for m in e.macro_names()] and e.k in ("cond", "paren", "cast"):
+            return n
+        if e.v is not None:
+            return e.v
+        if e.k == "bin":
+            a, b = count_eval(e.kids[0], n), count_eval(e.kids[1], n)
+            if a is None or b is None:
+                return None
+            ops = {"==": a == b, "!=": a != b, "<": a < b, "<=": a <= b, ">": a > b, ">=": a >= b, "&&": bool(a) and bool(b), "||": bool(a) or bool(b)}
+            return int(ops[e.op]) if e.op in ops else None
+        if e.k == "un" and e.op == "!":
+            a = count_eval(e.kids[0], n)
+            return None if a is None else int(not a)
+        return None
+
     def accepted(guardname):
         g = prog.func(guardname, cf)
         if g is None:
@@ -181,6 +202,9 @@ def run(chk):
         rets = [r for r in g.nodes if r.k == "return" and r.kids]
         if len(rets) != 1:
             return None
+        vals = [count_eval(rets[0].kids[0], n) for n in range(0, 7)]
+        if all(v is not None for v in vals):
+            return set(n for n, v in enumerate(vals) if v)
         # janet_v_count(args) == k ...: evaluate over n with the count expression replaced: find the compared variable
         e = rets[0].kids[0]
         vars_ = set(x.name for x in e.walk() if x.k == "ref" and x.d.get("d") in ("var", "parm"))
@@ -240,6 +264,23 @@ def run(chk):
                                   "the inline route accepts a call the function rejects" % (c.args[2].text(), bad, mn, mx))
                 else:
                     chk.ok(rule, "%s: inline arities %s within %d..%d" % (t, sorted(acc), mn, mx))
+        # the emitter's own needs: an argument addressed from the front (args[k]) and one addressed from the back
+        # (janet_v_last) are different arguments only when there are more than k + 1 of them
+        if dofn is not None and guard is not None and any("janet_v_last" in x.macro_names() for x in dofn.nodes):
+            consts = [strip_casts(x.kids[1]).v for x in dofn.nodes if x.k == "sub" and is_ref(strip_casts(x.kids[0]), "args")
+                      and strip_casts(x.kids[1]).v is not None]
+            acc = accepted(guard)
+            if consts and acc is not None:
+                chk.instance(rule)
+                need = max(consts) + 2
+                low = sorted(n for n in acc if n < need)
+                if low:
+                    chk.violation(rule, "cfuns.c", guard, "%s:last-arg" % t, dofn.loc,
+                                  "%s reads args[%d] and, separately, the last argument (janet_v_last); its guard %s lets calls with %s argument(s) "
+                                  "through, for which those are the same slot: inline (apply f) pushes f as the argument list and raises, while the "
+                                  "function itself calls f with no arguments" % (doname, max(consts), guard, low))
+                else:
+                    chk.ok(rule, "%s: guard %s admits only counts >= %d, where args[%d] and the last argument differ" % (t, guard, need, max(consts)))
         # opcode
         if dofn is not None and arr.k == "ref":
             init = ctu.ginit(arr.name)
@@ -310,6 +351,7 @@ def run(chk):
     _unary_rule(chk, prog, boot)
     _spliceform_rule(chk, prog)
     _cmpnum_rule(chk, prog)
+    _ownresult_rule(chk, prog)
     # (= nil x) / (not= nil x) compiled inline by `if` / `while` must agree with the functions = and not=
     from rules.c02 import _nilfold_rule
     _nilfold_rule(chk, prog, rule="C15-NILFOLD")
@@ -857,3 +899,31 @@ def _cmpnum_rule(chk, prog):
     missing = [o for o in ORDER if o not in seen]
     if missing:
         raise AnalysisBroken("ordering instructions without janet_compare fallback not recognised: %s" % missing)
+
+
+def _ownresult_rule(chk, prog):
+    """The slot an inline emitter returns is the VALUE of the call.  The function route hands back a value that later
+    assignments to some variable cannot change; the inline route does the same only if its result lives in a slot of
+    its own (a fresh target, a constant).  Returning an argument's slot aliases the result to a named binding: in
+    [(put x :a 1) (set x 2)] the first element then changes when the second one runs."""
+    rule = "C15-OWNRESULT"
+    chk.rule(rule, "no inline emitter of cfuns.c returns one of its argument slots (args[k]) as the value of the call")
+    cf = prog.tus["cfuns.c"]
+    n = 0
+    for fn in cf.funcs.values():
+        ps = [p["n"] for p in fn.params]
+        if not fn.name.startswith("do_") or "args" not in ps:
+            continue
+        n += 1
+        chk.instance(rule)
+        chk.analysed(fn)
+        bad = [r for r in fn.nodes if r.k == "return" and r.kids and strip_casts(r.kids[0]).k == "sub"
+               and is_ref(strip_casts(strip_casts(r.kids[0]).kids[0]), "args")]
+        if bad:
+            chk.violation(rule, "cfuns.c", fn.name, "return-arg", bad[0].loc,
+                          "%s returns `%s`, the slot of one of its arguments, as the value of the call: when that argument is a var, a later "
+                          "sibling expression that assigns it changes the value this call already produced - the inline route and the "
+                          "function route disagree" % (fn.name, bad[0].kids[0].text()))
+        else:
+            chk.ok(rule, "%s returns a slot of its own" % fn.name)
+    chk.floor(rule, 25, n)
